@@ -195,6 +195,7 @@ class Ctx:
         for k, m, s in self.sigs:
             out.append('sig %s %s %s' % (hx(k), hx(m), hx(s)))
         out.append('base @base')
+        out.append('dls on')
         return out
 
     def cleanup(self):
@@ -366,6 +367,21 @@ def num(m):
     return m['num'] if m else None
 
 
+def norm_dls(x, y):
+    """x = model line, y = implementation line.  The content of `<n>.full` after a failed inflate is not
+    modelled (the model prints `<n>f:?`); the implementation's entry for that file then compares equal."""
+    if ' dls=' not in x or ':?' not in x or ' dls=' not in y:
+        return y
+    xm = dict(e.split(':', 1) for e in x.rsplit(' dls=', 1)[1].split(',') if e)
+    yh, yd = y.rsplit(' dls=', 1)
+    ents = []
+    for e in yd.split(','):
+        if e:
+            k, _, v = e.partition(':')
+            ents.append('%s:?' % k if xm.get(k) == '?' else e)
+    return yh + ' dls=' + ','.join(ents)
+
+
 def diff_traces(model, impl):
     """first divergence per history: list of (history, index, model_line, impl_line)"""
     out = []
@@ -377,6 +393,7 @@ def diff_traces(model, impl):
         for i in range(max(len(a), len(b))):
             x = a[i] if i < len(a) else '<missing>'
             y = b[i] if i < len(b) else '<missing>'
+            y = norm_dls(x, y)
             if x != y:
                 out.append((h, i, x, y))
                 break
